@@ -452,6 +452,10 @@ func (w *world) peerCloser() {
 
 func (w *world) connEnd(c net.Conn, raw *simnet.Conn) *end {
 	e := &end{rw: c, setRDL: c.SetReadDeadline}
+	if w.p.layer == layNoise || w.p.layer == layPnet {
+		base := raw.Stats().BytesIn // the handshake is over and consumed: nothing is in flight or buffered
+		e.rawIn = func() int { return raw.Stats().BytesIn - base }
+	}
 	if cw, ok := c.(interface{ CloseWrite() error }); ok && w.p.layer == layTLS {
 		e.closeW = cw.CloseWrite // TLS close_notify
 	} else {
@@ -571,7 +575,7 @@ func (w *world) violate(class, detail string) {
 
 // OBSERVATION, not an oracle (decision of the lead, guide rule 6): read deadlines and retries after a timeout are
 // outside the property's quantifier (write sizes, read-buffer sizes, short reads, concurrent streams, half close,
-// tampering). On the two bare connections that keep no partial-frame state a read deadline that expires in the
+// tampering). On the two bare connections that keep no partial-frame state, a read deadline that expires in the
 // middle of a frame leaves the connection silently desynchronised:
 //   - pnet pskConn.Read reads the 24-byte nonce into a local buffer with io.ReadFull; the bytes consumed before the
 //     deadline are lost, the next Read takes 24 bytes from the middle of the stream as nonce, everything after is
@@ -580,14 +584,13 @@ func (w *world) violate(class, detail string) {
 //     middle of the frame: mostly an authentication error follows, but a bogus length can swallow the rest of the
 //     stream, after which the peer's FIN reads as a clean io.EOF with bytes missing.
 // Neither is reachable through the assembled stack (the upgrader closes the connection on a timeout, yamux reads the
-// secured connection without deadlines). After a reader of one of these two layers has seen a timeout, a mismatch or
-// a premature EOF on it is therefore counted as the probe below and the reader is not judged further. Every other
-// layer (TLS, yamux and host streams resume correctly after a deadline) keeps all oracles.
-const desyncProbe = "observation:desynchronised-after-read-deadline/"
-
-func (c *chanState) deadlineDesyncLayer() bool {
-	return c.hadTimeout && (c.w.p.layer == layNoise || c.w.p.layer == layPnet)
-}
+// secured connection without deadlines). Both were first seen as failures of the prefix / EOF oracles (histories in the
+// report to the lead). Now the CONDITION is counted: when a timeout is returned to a reader of one of these two layers
+// and the raw bytes taken off the wire so far end inside a frame (inside the nonce), the probe below is counted and the
+// reader stops - what a further Read would return depends on ciphertext bytes, i.e. on crypto/rand, and would make the
+// run irreproducible. A deadline that expires ON a frame boundary loses nothing and the reader carries on, fully
+// judged. TLS, yamux streams and host streams resume correctly after a deadline and keep every oracle.
+const deadlineObservation = "observation:read-deadline-expired-mid-frame/"
 
 func (w *world) finish(res simrt.Result) {
 	o, p, lay := w.o, w.p, w.layer()
@@ -653,7 +656,7 @@ func (w *world) finish(res simrt.Result) {
 			if judged {
 				w.judge(c, faulted, advFired, stallFired)
 			}
-			bad := len(o.Violations) > nv || c.rEnd == "desync-after-deadline"
+			bad := len(o.Violations) > nv || c.rEnd == "deadline-mid-frame"
 			o.Logf("result %s: planned=%d accepted=%d delivered=%d reads=%d timeouts=%d reader=%s%s writer=%s%s started r=%v w=%v done r=%v w=%v",
 				c.id, cp.total, c.accepted, c.off, c.reads, c.timeouts, orDash(c.rEnd), paren(c.rErrText), orDash(c.wErr), paren(c.wErrText), c.rStarted, c.wStarted, c.rDone.Load(), c.wDone.Load())
 			w.dump(c.id+" W", c.wlog.lines(), bad)
@@ -725,11 +728,6 @@ func (w *world) judge(c *chanState, faulted, advFired, stallFired bool) {
 	// (EOF only after the writer closed and with every accepted byte delivered).
 	noAuthEnd := (w.p.layer == layNoise || w.p.layer == layTLS) && advFired &&
 		(w.p.adv.action == advTruncate || w.p.adv.action == advDrop || w.p.adv.action == advSwap)
-	if c.rEnd == "eof" && !noAuthEnd && c.deadlineDesyncLayer() && (!c.eofClosing || c.eofOff < c.accepted) {
-		w.probes[desyncProbe+lay+"/premature-eof"]++
-		w.o.Logf("OBSERVATION %s: after %d read timeouts Read returned io.EOF at offset %d; Write had accepted %d (writer closing: %v)", c.id, c.timeouts, c.eofOff, c.accepted, c.eofClosing)
-		c.rEnd = "desync-after-deadline"
-	}
 	if c.rEnd == "eof" && !noAuthEnd {
 		how := "eof-alone"
 		if c.eofWithData {
